@@ -174,8 +174,9 @@ Definition pl_export (st : pstate) : frame :=
   {| f_names := map (fun u => show (pname (p_ns st) u)) (p_select st);
      f_rows := map (fun f => map (fun u => nget f (pname (p_ns st) u)) (p_select st)) (p_rows st) |}.
 
-(* ---------- the fragment for which compile correctness is proved ---------- *)
-From PDT Require Import Model.SqlCompile.     (* elem, agg1, cols, gcols, nodup_u *)
+(* ---------- the pipelines for which compile correctness is proved: every expression form (element-wise,
+   aggregate, window with partition_by / arrange=) is allowed ---------- *)
+From PDT Require Import Model.SqlCompile.     (* cols, nodup_u *)
 
 Fixpoint nodup_s (l : list string) : bool :=
   match l with [] => true | x :: l' => negb (mem_s x l') && nodup_s l' end.
@@ -207,22 +208,21 @@ Fixpoint pflat_ok (d : db) (a : ast) : bool :=
          | None => false
          end
   | Mutate c defs =>
-      pflat_ok d c && forallb (fun dd => elem (snd dd)) defs
+      pflat_ok d c
       && match pl_compile d c with
          | Some st => pfresh (p_ns st) defs && forallb (fun dd => pscoped (p_ns st) (snd dd)) defs
          | None => false end
   | Filter c ps =>
-      pflat_ok d c && forallb elem ps
+      pflat_ok d c
       && match pl_compile d c with Some st => forallb (pscoped (p_ns st)) ps | None => false end
   | Arrange c os =>
-      pflat_ok d c && forallb (fun o => elem (fst o)) os
+      pflat_ok d c
       && match pl_compile d c with Some st => forallb (fun o => pscoped (p_ns st) (fst o)) os | None => false end
   | Summarize c defs =>
-      pflat_ok d c && forallb (fun dd => agg1 (snd dd)) defs
+      pflat_ok d c
       && match pl_compile d c with
          | Some st =>
              pfresh (p_ns st) defs && forallb (fun dd => pscoped (p_ns st) (snd dd)) defs
-             && forallb (fun dd => forallb (fun x => mem_u x (p_part st)) (gcols (snd dd))) defs
              && forallb (fun u => mem_u u (p_select st)) (p_part st)
              && forallb (fun u => negb (user_in (pname (p_ns st) u) (map (fun dd => fst (fst dd)) defs))) (p_part st)
          | None => false
